@@ -8,13 +8,12 @@ Open Scope Z_scope.
 Section Main.
 Variable lim : option nat.
 Variable faults : list (nat * fkind).
-Variable fixed : bool.
 
-Local Notation exec := (exec lim faults fixed).
-Local Notation leave := (leave lim faults fixed).
-Local Notation run_top := (run_top lim faults fixed).
+Local Notation exec := (exec lim faults).
+Local Notation leave := (leave lim faults).
+Local Notation run_top := (run_top lim faults).
 
-Lemma exec_S : forall f nd s, exec (S f) nd s = node_step lim faults fixed (exec f) (leave f) (run_top f) nd s.
+Lemma exec_S : forall f nd s, exec (S f) nd s = node_step lim faults (exec f) (leave f) (run_top f) nd s.
 Proof. reflexivity. Qed.
 Lemma run_top_S : forall f body s, run_top (S f) body s = run_top_step (exec f) (leave f) body s.
 Proof. reflexivity. Qed.
@@ -29,9 +28,9 @@ Lemma leave_S : forall f s, leave (S f) s =
 Proof. intros. cbn. destruct (jq s); reflexivity. Qed.
 
 Lemma main_invariant : forall fuel,
-  (forall nd s, Inv fixed s (exec fuel nd s)) /\
-  (forall s, GInv fixed PostL s (leave fuel s)) /\
-  (forall body s, GInv fixed PostT s (fst (run_top fuel body s))).
+  (forall nd s, Inv true s (exec fuel nd s)) /\
+  (forall s, GInv true PostL s (leave fuel s)) /\
+  (forall body s, GInv true PostT s (fst (run_top fuel body s))).
 Proof.
   induction fuel as [|f (IHe & IHl & IHt)].
   - split; [|split]; intros; simpl; apply GInv_ret; simpl; auto; unfold PostT; simpl; auto.
@@ -39,23 +38,23 @@ Proof.
     + intros nd s. rewrite exec_S. apply node_step_inv; auto.
     + intros s. rewrite leave_S. destruct (jq s) as [|j js] eqn:Hj.
       { apply GInv_ret; [reflexivity | intros _; reflexivity]. }
-      pose proof (run_batch_inv lim fixed (exec f) IHe (j :: js) (set_jq [] s)) as G.
-      apply (GInv_regs_base fixed PostL s (set_jq [] s) _ PostL_base eq_refl eq_refl) in G.
+      pose proof (run_batch_inv lim true (exec f) IHe (j :: js) (set_jq [] s)) as G.
+      apply (GInv_regs_base true PostL s (set_jq [] s) _ PostL_base eq_refl eq_refl) in G.
       destruct (run_batch lim (exec f) (j :: js) (set_jq [] s)) as [s1 o].
       destruct o; try exact G.
       apply Chain_GInv.
-      eapply (Chain_bind fixed PostL s s1 s1 _ (PostL s s1 ONorm)); [exact G | reflexivity | apply IHl | | ].
+      eapply (Chain_bind true PostL s s1 s1 _ (PostL s s1 ONorm)); [exact G | reflexivity | apply IHl | | ].
       * intros R T. simpl in R. eapply TopOK_regs; eauto.
       * intros R T P. simpl in R. eapply PostL_base; eauto.
     + intros body s. rewrite run_top_S. apply run_top_step_inv; auto.
 Qed.
 
-Lemma exec_inv : forall fuel nd s, Inv fixed s (exec fuel nd s).
+Lemma exec_inv : forall fuel nd s, Inv true s (exec fuel nd s).
 Proof. intros. apply main_invariant. Qed.
 
 (* Callable / RunProgram nodes: everything restored, sp included *)
 Lemma exec_api_inv : forall fuel nd s,
-  (match nd with NCallable _ _ | NRun _ _ => True | _ => False end) -> GInv fixed PostL s (exec fuel nd s).
+  (match nd with NCallable _ _ | NRun _ _ => True | _ => False end) -> GInv true PostL s (exec fuel nd s).
 Proof.
   intros fuel nd s H. destruct fuel as [|f].
   - simpl. apply GInv_ret; simpl; auto.
@@ -84,179 +83,120 @@ Lemma idle_TopOK : forall s, idle_regs s = true -> TopOK s.
 Proof. intros s H. apply idle_regs_spec in H. intros _. tauto. Qed.
 
 (* ---- idle_restored ---- *)
-Lemma api_exec_dv : forall lim faults fixed fuel a st,
-  (dv st <= dv (fst (api_exec lim faults fixed fuel a st)))%nat /\
-  (fixed = true -> dv (fst (api_exec lim faults fixed fuel a st)) = dv st).
+(* nothing deviates any more: the ghost counter never moves *)
+Lemma api_exec_dv : forall lim faults fuel a st, dv (fst (api_exec lim faults fuel a st)) = dv st.
 Proof.
-  intros lim faults fixed fuel a st. destruct a as [body|body|acts| |run late rr evs]; simpl.
-  - pose proof (exec_api_inv lim faults fixed fuel (NRun false body) st I) as (A & B & C).
-    destruct (exec lim faults fixed fuel (NRun false body) st) as [s' o]. destruct o; simpl in *; auto.
-  - pose proof (exec_api_inv lim faults fixed fuel (NCallable false body) st I) as (A & B & C).
-    destruct (exec lim faults fixed fuel (NCallable false body) st) as [s' o]. destruct o; simpl in *; auto.
-  - pose proof (vm_try_inv fixed (run_acts (exec lim faults fixed fuel) acts) st
-                  (run_acts_inv fixed (exec lim faults fixed fuel) (exec_inv lim faults fixed fuel) acts)) as (A & B & C).
-    destruct (vm_try (run_acts (exec lim faults fixed fuel) acts) st) as [s' o]. destruct o; simpl in *; auto.
-  - split; auto.
-  - destruct (intr st). { split; auto. }
+  intros lim faults fuel a st. destruct a as [body|body|acts| |run late rr evs]; simpl.
+  - pose proof (exec_api_inv lim faults fuel (NRun false body) st I) as (A & B & C).
+    destruct (exec lim faults fuel (NRun false body) st) as [s' o]. destruct o; simpl in *; auto.
+  - pose proof (exec_api_inv lim faults fuel (NCallable false body) st I) as (A & B & C).
+    destruct (exec lim faults fuel (NCallable false body) st) as [s' o]. destruct o; simpl in *; auto.
+  - pose proof (vm_try_inv true (run_acts (exec lim faults fuel) acts) st
+                  (run_acts_inv true (exec lim faults fuel) (exec_inv lim faults fuel) acts)) as (A & B & C).
+    destruct (vm_try (run_acts (exec lim faults fuel) acts) st) as [s' o]. destruct o; simpl in *; auto.
+  - reflexivity.
+  - destruct (intr st). { reflexivity. }
     set (s1 := if late then st else set_log (log st ++ evs) st).
     assert (D1 : dv s1 = dv st) by (unfold s1; destruct late; reflexivity).
     set (sw := if run then set_cs (halt_ctx :: cs s1) s1 else s1).
     assert (Dw : dv sw = dv st) by (unfold sw; destruct run; exact D1).
-    destruct (proj1 (proj2 (main_invariant lim faults fixed fuel)) sw) as (A & B & C).
-    assert (Hl : (dv st <= dv (fst (scen_finish run late rr evs (leave lim faults fixed fuel sw))))%nat /\
-                 (fixed = true -> dv (fst (scen_finish run late rr evs (leave lim faults fixed fuel sw))) = dv st)).
-    { unfold scen_finish. destruct (leave lim faults fixed fuel sw) as [s2 o]. simpl in A, B.
-      destruct o; try (destruct (uncatchable_err p)); destruct run; try destruct late; simpl; unfold dv in *; cbn;
-        (split; [lia | intros F; rewrite <- Dw; apply B; auto]). }
-    destruct rr as [|[| | |]| |]; try exact Hl; simpl; unfold dv in *; cbn; (split; [lia | intros; lia]).
+    destruct (proj1 (proj2 (main_invariant lim faults fuel)) sw) as (A & B & C). specialize (B eq_refl).
+    assert (Hl : dv (fst (scen_finish run late rr evs (leave lim faults fuel sw))) = dv st).
+    { unfold scen_finish. destruct (leave lim faults fuel sw) as [s2 o]. simpl in B.
+      destruct o; try (destruct (uncatchable_err p)); destruct run; try destruct late; simpl; unfold dv in *; cbn; lia. }
+    destruct rr as [|[| | |]| |]; try exact Hl; simpl; unfold dv in *; cbn; lia.
 Qed.
 
-Lemma api_exec_idle : forall lim faults fixed fuel a st,
+Lemma api_exec_idle : forall lim faults fuel a st,
   idle_regs st = true ->
-  snd (api_exec lim faults fixed fuel a st) <> RStuck ->
-  dv (fst (api_exec lim faults fixed fuel a st)) = dv st ->
-  idle_regs (fst (api_exec lim faults fixed fuel a st)) = true.
+  snd (api_exec lim faults fuel a st) <> RStuck ->
+  idle_regs (fst (api_exec lim faults fuel a st)) = true.
 Proof.
-  intros lim faults fixed fuel a st Hi. pose proof (idle_TopOK st Hi) as T.
+  intros lim faults fuel a st Hi. pose proof (idle_TopOK st Hi) as T.
   destruct a as [body|body|acts| |run late rr evs]; simpl.
-  - pose proof (exec_api_inv lim faults fixed fuel (NRun false body) st I) as (A & B & C).
-    destruct (exec lim faults fixed fuel (NRun false body) st) as [s' o]. simpl in *.
-    destruct o; simpl; intros Hs D; try congruence;
-      specialize (C D T); simpl in C; try contradiction; eapply idle_regs_of_regs; eauto.
-  - pose proof (exec_api_inv lim faults fixed fuel (NCallable false body) st I) as (A & B & C).
-    destruct (exec lim faults fixed fuel (NCallable false body) st) as [s' o]. simpl in *.
-    destruct o; simpl; intros Hs D; try congruence;
-      specialize (C D T); simpl in C; try contradiction; eapply idle_regs_of_regs; eauto.
-  - pose proof (vm_try_inv fixed (run_acts (exec lim faults fixed fuel) acts) st
-                  (run_acts_inv fixed (exec lim faults fixed fuel) (exec_inv lim faults fixed fuel) acts)) as (A & B & C).
-    destruct (vm_try (run_acts (exec lim faults fixed fuel) acts) st) as [s' o]. simpl in *.
-    destruct o; simpl; intros Hs D; try congruence;
-      specialize (C D T); simpl in C; eapply idle_regs_of_regs; eauto.
-  - intros _ _. exact Hi.
-  - destruct (intr st). { intros _ _. exact Hi. }
+  - pose proof (exec_api_inv lim faults fuel (NRun false body) st I) as (A & B & C).
+    destruct (exec lim faults fuel (NRun false body) st) as [s' o]. simpl in *. specialize (C (B eq_refl) T).
+    destruct o; simpl; intros Hs; try congruence; simpl in C; try contradiction; eapply idle_regs_of_regs; eauto.
+  - pose proof (exec_api_inv lim faults fuel (NCallable false body) st I) as (A & B & C).
+    destruct (exec lim faults fuel (NCallable false body) st) as [s' o]. simpl in *. specialize (C (B eq_refl) T).
+    destruct o; simpl; intros Hs; try congruence; simpl in C; try contradiction; eapply idle_regs_of_regs; eauto.
+  - pose proof (vm_try_inv true (run_acts (exec lim faults fuel) acts) st
+                  (run_acts_inv true (exec lim faults fuel) (exec_inv lim faults fuel) acts)) as (A & B & C).
+    destruct (vm_try (run_acts (exec lim faults fuel) acts) st) as [s' o]. simpl in *. specialize (C (B eq_refl) T).
+    destruct o; simpl; intros Hs; try congruence; simpl in C; try contradiction; eapply idle_regs_of_regs; eauto.
+  - intros _. exact Hi.
+  - destruct (intr st). { intros _. exact Hi. }
     set (s1 := if late then st else set_log (log st ++ evs) st).
     assert (R1 : regs s1 = regs st) by (unfold s1; destruct late; reflexivity).
-    assert (D1 : dv s1 = dv st) by (unfold s1; destruct late; reflexivity).
     assert (I1 : idle_regs s1 = true) by (eapply idle_regs_of_regs; eauto).
     pose proof (idle_regs_spec s1 I1) as (_ & _ & _ & _ & _ & Hcs1 & _).
     set (sw := if run then set_cs (halt_ctx :: cs s1) s1 else s1).
-    assert (Dw : dv sw = dv st) by (unfold sw; destruct run; exact D1).
     assert (Tw : TopOK sw).
     { unfold sw. destruct run. apply TopOK_ne. discriminate. apply idle_TopOK; auto. }
-    destruct (proj1 (proj2 (main_invariant lim faults fixed fuel)) sw) as (A & B & C).
-    assert (Hl : snd (scen_finish run late rr evs (leave lim faults fixed fuel sw)) <> RStuck ->
-                 dv (fst (scen_finish run late rr evs (leave lim faults fixed fuel sw))) = dv st ->
-                 idle_regs (fst (scen_finish run late rr evs (leave lim faults fixed fuel sw))) = true).
-    { unfold scen_finish. destruct (leave lim faults fixed fuel sw) as [s2 o]. simpl in A, B, C.
-      assert (Hr : dv s2 = dv st -> o = ONorm \/ (exists p, o = OPanic p) ->
-                   idle_regs (if run then top_fin s2 else s2) = true).
-      { intros D Ho. assert (D' : dv s2 = dv sw) by lia. specialize (C D' Tw).
-        assert (R2 : regs s2 = regs sw) by (destruct Ho as [Ho|(q & Ho)]; subst o; exact C).
+    destruct (proj1 (proj2 (main_invariant lim faults fuel)) sw) as (A & B & C). specialize (C (B eq_refl) Tw).
+    assert (Hl : snd (scen_finish run late rr evs (leave lim faults fuel sw)) <> RStuck ->
+                 idle_regs (fst (scen_finish run late rr evs (leave lim faults fuel sw))) = true).
+    { unfold scen_finish. destruct (leave lim faults fuel sw) as [s2 o]. simpl in C.
+      assert (Hr : o = ONorm \/ (exists p, o = OPanic p) -> idle_regs (if run then top_fin s2 else s2) = true).
+      { intros Ho. assert (R2 : regs s2 = regs sw) by (destruct Ho as [Ho|(q & Ho)]; subst o; exact C).
         eapply idle_regs_of_regs; [|exact I1]. apply regs_inv in R2.
         destruct R2 as (c1 & c2 & c3 & c4 & c5 & c6 & c7 & c8 & c9).
         unfold sw in *. destruct run; [|apply regs_intro; auto].
         cbn in c1, c2, c3, c4, c5, c6, c7, c8, c9. unfold top_fin. apply regs_intro; cbn; try congruence.
         rewrite c6. reflexivity. }
-      destruct o; simpl; intros Hs D; try congruence.
-      - assert (Hd : dv s2 = dv st) by (destruct run; destruct late; exact D).
-        specialize (Hr Hd (or_introl eq_refl)). destruct run; destruct late; exact Hr.
-      - destruct (uncatchable_err p); simpl in *.
-        + assert (Hd : dv s2 = dv st) by (destruct run; exact D). apply (Hr Hd). eauto.
-        + assert (Hd : dv s2 = dv st) by (destruct run; exact D). apply (Hr Hd). eauto. }
-    destruct rr as [|[| | |]| |]; auto; intros _ _; unfold leave_abrupt; exact I1.
+      destruct o; simpl; intros Hs; try congruence.
+      - specialize (Hr (or_introl eq_refl)). destruct run; destruct late; exact Hr.
+      - destruct (uncatchable_err p); simpl in *; apply Hr; eauto. }
+    destruct rr as [|[| | |]| |]; auto; intros _; unfold leave_abrupt; exact I1.
 Qed.
 
-Definition no_new_deviation (fixed : bool) (s s' : state) : Prop := fixed = true \/ leaked s' = leaked s.
-
-Lemma guard_dv : forall lim faults fixed fuel a st,
-  no_new_deviation fixed st (fst (api_exec lim faults fixed fuel a st)) ->
-  dv (fst (api_exec lim faults fixed fuel a st)) = dv st.
-Proof.
-  intros lim faults fixed fuel a st [F|L].
-  - apply api_exec_dv; auto.
-  - unfold dv. rewrite L. reflexivity.
-Qed.
-
-Theorem idle_restored_partial : forall lim faults fixed fuel a st,
-  idle_regs st = true ->
-  snd (api_exec lim faults fixed fuel a st) <> RStuck ->
-  no_new_deviation fixed st (fst (api_exec lim faults fixed fuel a st)) ->
-  idle_regs (fst (api_exec lim faults fixed fuel a st)) = true.
-Proof. intros. apply api_exec_idle; auto. apply guard_dv; auto. Qed.
-
+(* idle after EVERY outermost API call *)
 Theorem idle_restored : forall lim faults fuel a st,
   idle_regs st = true ->
-  snd (api_exec lim faults true fuel a st) <> RStuck ->
-  idle_regs (fst (api_exec lim faults true fuel a st)) = true.
-Proof. intros. apply idle_restored_partial; auto. left. reflexivity. Qed.
+  snd (api_exec lim faults fuel a st) <> RStuck ->
+  idle_regs (fst (api_exec lim faults fuel a st)) = true.
+Proof. exact api_exec_idle. Qed.
 
 (* ---- histories of API calls ---- *)
-Fixpoint run_calls (lim : option nat) (faults : list (nat * fkind)) (fixed : bool) (fuel : nat) (ops : list api) (s : state)
+Fixpoint run_calls (lim : option nat) (faults : list (nat * fkind)) (fuel : nat) (ops : list api) (s : state)
   : state * bool :=
   match ops with
   | [] => (s, true)
   | a :: r =>
-      match snd (api_exec lim faults fixed fuel a s) with
-      | RStuck => (fst (api_exec lim faults fixed fuel a s), false)
-      | _ => run_calls lim faults fixed fuel r (fst (api_exec lim faults fixed fuel a s))
+      match snd (api_exec lim faults fuel a s) with
+      | RStuck => (fst (api_exec lim faults fuel a s), false)
+      | _ => run_calls lim faults fuel r (fst (api_exec lim faults fuel a s))
       end
   end.
 
-Lemma run_calls_dv : forall lim faults fixed fuel ops st,
-  (dv st <= dv (fst (run_calls lim faults fixed fuel ops st)))%nat /\
-  (fixed = true -> dv (fst (run_calls lim faults fixed fuel ops st)) = dv st).
-Proof.
-  intros lim faults fixed fuel. induction ops as [|a r IH]; intros st; simpl. { auto. }
-  destruct (api_exec_dv lim faults fixed fuel a st) as (A & B).
-  destruct (IH (fst (api_exec lim faults fixed fuel a st))) as (A' & B').
-  destruct (snd (api_exec lim faults fixed fuel a st)); simpl; split; auto; try lia; intros F; rewrite B', B; auto.
-Qed.
-
-Lemma history_idle_dv : forall lim faults fixed fuel ops st,
+Theorem history_idle : forall lim faults fuel ops st,
   idle_regs st = true ->
-  snd (run_calls lim faults fixed fuel ops st) = true ->
-  dv (fst (run_calls lim faults fixed fuel ops st)) = dv st ->
-  idle_regs (fst (run_calls lim faults fixed fuel ops st)) = true.
+  snd (run_calls lim faults fuel ops st) = true ->
+  idle_regs (fst (run_calls lim faults fuel ops st)) = true.
 Proof.
-  intros lim faults fixed fuel. induction ops as [|a r IH]; intros st Hi; simpl. { auto. }
-  destruct (api_exec_dv lim faults fixed fuel a st) as (A & B).
-  destruct (run_calls_dv lim faults fixed fuel r (fst (api_exec lim faults fixed fuel a st))) as (A' & B').
-  pose proof (api_exec_idle lim faults fixed fuel a st Hi) as C.
-  destruct (snd (api_exec lim faults fixed fuel a st)) eqn:E; simpl; intros Ok D; try discriminate;
-    (apply IH; [apply C; [congruence|lia] | exact Ok | lia]).
-Qed.
-
-Theorem history_idle : forall lim faults fixed fuel ops st,
-  idle_regs st = true ->
-  snd (run_calls lim faults fixed fuel ops st) = true ->
-  no_new_deviation fixed st (fst (run_calls lim faults fixed fuel ops st)) ->
-  idle_regs (fst (run_calls lim faults fixed fuel ops st)) = true.
-Proof.
-  intros lim faults fixed fuel ops st Hi Ok G. apply history_idle_dv; auto.
-  destruct G as [F|L]. apply run_calls_dv; auto. unfold dv. rewrite L. reflexivity.
+  intros lim faults fuel. induction ops as [|a r IH]; intros st Hi; simpl. { auto. }
+  pose proof (api_exec_idle lim faults fuel a st Hi) as C.
+  destruct (snd (api_exec lim faults fuel a st)) eqn:E; simpl; intros Ok; try discriminate;
+    (apply IH; [apply C; congruence | exact Ok]).
 Qed.
 
 (* ---- nested entry ---- *)
-Theorem nested_entry_restored : forall lim faults fixed fuel nd s,
+Theorem nested_entry_restored : forall lim faults fuel nd s,
   TopOK s ->
-  no_new_deviation fixed s (fst (exec lim faults fixed fuel nd s)) ->
-  match snd (exec lim faults fixed fuel nd s) with
-  | ONorm => regs (fst (exec lim faults fixed fuel nd s)) = regs s
+  match snd (exec lim faults fuel nd s) with
+  | ONorm => regs (fst (exec lim faults fuel nd s)) = regs s
   | OPanic _ =>
-      same_but_sp s (fst (exec lim faults fixed fuel nd s)) /\
-      (match nd with NCallable _ _ | NRun _ _ => regs (fst (exec lim faults fixed fuel nd s)) = regs s | _ => True end)
+      same_but_sp s (fst (exec lim faults fuel nd s)) /\
+      (match nd with NCallable _ _ | NRun _ _ => regs (fst (exec lim faults fuel nd s)) = regs s | _ => True end)
   | _ => True
   end.
 Proof.
-  intros lim faults fixed fuel nd s T G.
-  destruct (exec_inv lim faults fixed fuel nd s) as (A & B & C).
-  assert (D : dv (fst (exec lim faults fixed fuel nd s)) = dv s).
-  { destruct G as [F|L]; auto. unfold dv. rewrite L. reflexivity. }
-  specialize (C D T).
+  intros lim faults fuel nd s T.
+  destruct (exec_inv lim faults fuel nd s) as (A & B & C). specialize (C (B eq_refl) T).
   assert (Hapi : match nd with NCallable _ _ | NRun _ _ => True | _ => False end ->
-                 PostL s (fst (exec lim faults fixed fuel nd s)) (snd (exec lim faults fixed fuel nd s))).
-  { intros Hn. destruct (exec_api_inv lim faults fixed fuel nd s Hn) as (_ & _ & C'). apply C'; auto. }
-  destruct (snd (exec lim faults fixed fuel nd s)); simpl in *; auto.
+                 PostL s (fst (exec lim faults fuel nd s)) (snd (exec lim faults fuel nd s))).
+  { intros Hn. destruct (exec_api_inv lim faults fuel nd s Hn) as (_ & B' & C'). apply C'; auto. }
+  destruct (snd (exec lim faults fuel nd s)); simpl in *; auto.
   split; auto. destruct nd; auto; apply Hapi; exact I.
 Qed.
 
@@ -271,10 +211,10 @@ Proof.
   destruct s; simpl in *. unfold fresh_with. congruence.
 Qed.
 
-Theorem next_run_equivalent : forall lim faults fixed fuel a s,
+Theorem next_run_equivalent : forall lim faults fuel a s,
   idle_regs s = true -> jq s = [] ->
-  api_exec lim faults fixed fuel a s =
-  api_exec lim faults fixed fuel a (fresh_with (log s) (pcount s) (intr s) (trace s) (leaked s)).
+  api_exec lim faults fuel a s =
+  api_exec lim faults fuel a (fresh_with (log s) (pcount s) (intr s) (trace s) (leaked s)).
 Proof. intros. rewrite <- idle_is_fresh; auto. Qed.
 
 (* ---- the snapshot/restore lemma in terms of handleThrow, and its corollaries ---- *)
@@ -337,19 +277,19 @@ Proof.
   - inversion F; subst. simpl in H1. subst r. rewrite IH by auto. cbn. rewrite <- app_assoc. reflexivity.
 Qed.
 
-Lemma raise_closes_then_truncates : forall lim faults fixed fuel inrec p s tf rest,
+Lemma raise_closes_then_truncates : forall lim faults fuel inrec p s tf rest,
   catchable p = true -> target p (ts s) = Some (tf, rest) ->
   let sm := set_ts (tf :: rest) (restore_regs tf s) in
   let dropped := firstn (length (its s) - t_iter tf) (its s) in
-  let r := close_items lim (Model.exec lim faults fixed fuel) dropped sm in
+  let r := close_items lim (Model.exec lim faults fuel) dropped sm in
   (* the walk starts with the iterator stack untouched: whatever a return() call iterates is pushed above the tail *)
   its sm = its s /\
-  raise lim fixed (Model.exec lim faults fixed fuel) inrec p s =
+  raise lim (Model.exec lim faults fuel) inrec p s =
     match r with
     | (s1, ONorm) => handle_throw p s1
     | (s1, OPanic p') =>
         let s2 := restore_stacks (t_iter tf) (t_ref tf) s1 in     (* the deferred dropStacks *)
-        if inrec && negb fixed then (deviate 23 s2, OEscaped p') else handle_throw p' (with_regs_of s s2)
+        handle_throw p' (with_regs_of s s2)
     | (s1, _) => (s1, OStuck)
     end /\
   (* every return() call that comes back restores every register and stack; only then the stacks are cut *)
@@ -358,13 +298,13 @@ Lemma raise_closes_then_truncates : forall lim faults fixed fuel inrec p s tf re
      its (fst (handle_throw p (fst r))) = low (t_iter tf) (its s) /\
      refs (fst (handle_throw p (fst r))) = Nat.min (t_ref tf) (refs s)).
 Proof.
-  intros lim faults fixed fuel inrec p s tf rest Hc Ht sm dropped r.
+  intros lim faults fuel inrec p s tf rest Hc Ht sm dropped r.
   destruct (restore_regs_fields tf s) as (f1 & f2 & f3 & f4 & f5 & f6 & f7 & _).
   assert (Hits : its sm = its s) by (unfold sm; cbn -[restore_regs]; exact f1).
   split; [exact Hits|]. split.
   - unfold raise, close_phase. rewrite Hc, Ht. fold sm. rewrite Hits. fold dropped. fold r. destruct r as [s1 o]. destruct o; reflexivity.
   - intros Hn D.
-    destruct (close_items_inv lim fixed (Model.exec lim faults fixed fuel) (exec_inv lim faults fixed fuel) dropped sm) as (A & B & C).
+    destruct (close_items_inv lim true (Model.exec lim faults fuel) (exec_inv lim faults fuel) dropped sm) as (A & B & C).
     fold r in A, B, C. rewrite Hn in C.
     assert (Dm : dv sm = dv s) by (unfold sm, dv; cbn -[restore_regs]; rewrite f7; reflexivity).
     assert (R : regs (fst r) = regs sm) by (apply C; lia).
@@ -380,12 +320,9 @@ Proof.
     destruct (t_marker tf); [|destruct (t_catch tf)]; cbn -[restore_at low Nat.min]; auto.
 Qed.
 
-(* ---- the former findings F16, F17, F21, F22 (all repaired in /repo): their witnesses are idle on the current
-   algorithm; the open finding F23 is exhibited by the faithful model ---- *)
-Definition idle_after (lim : option nat) (faults : list (nat * fkind)) (fixed : bool) (a : api) : bool :=
-  idle_full (fst (api_exec lim faults fixed 80 a init)).
-Definition deviations (lim : option nat) (faults : list (nat * fkind)) (a : api) : list nat :=
-  leaked (fst (api_exec lim faults false 80 a init)).
+(* ---- the former findings F16, F17, F21, F22, F23 (all repaired in /repo): their witnesses are idle ---- *)
+Definition idle_after (lim : option nat) (faults : list (nat * fkind)) (a : api) : bool :=
+  idle_full (fst (api_exec lim faults 80 a init)).
 
 Definition w16 := ARun [Gen [Probe]].                        (* gen().next() interrupted inside the body *)
 Definition w16b := ARun [Call [Gen [Probe]]].                (* limit 3: overflow inside the resumption *)
@@ -397,24 +334,19 @@ Definition w22 := ARun [Then [Effect 7]; Probe].             (* foreign Go panic
 Definition w23 := ARun [Try [ForOf 1 [] 1 [Probe] (Some [Probe; Effect 1001])] [Effect 5] [] true false].
 
 Lemma former_findings_repaired :
-  idle_after None [(0%nat, FIntr)] false w16 = true /\ idle_after (Some 3%nat) [] false w16b = true /\
-  idle_after None [(0%nat, FIntr)] false w16c = true /\ idle_after (Some 0%nat) [] false w17 = true /\
-  idle_after (Some 2%nat) [] false w21 = true /\ idle_after None [(0%nat, FGo)] false w22 = true.
+  idle_after None [(0%nat, FIntr)] w16 = true /\ idle_after (Some 3%nat) [] w16b = true /\
+  idle_after None [(0%nat, FIntr)] w16c = true /\ idle_after (Some 0%nat) [] w17 = true /\
+  idle_after (Some 2%nat) [] w21 = true /\ idle_after None [(0%nat, FGo)] w22 = true /\
+  idle_after None [(0%nat, FThrow); (1%nat, FIntr)] w23 = true.
 Proof. vm_compute. auto 10. Qed.
 
-Lemma idle_refuted_F23 :
-  idle_after None [(0%nat, FThrow); (1%nat, FIntr)] false w23 = false /\
-  idle_after None [(0%nat, FThrow); (1%nat, FIntr)] true w23 = true /\
-  deviations None [(0%nat, FThrow); (1%nat, FIntr)] w23 = [23%nat].
-Proof. vm_compute. auto. Qed.
-
 (* ---- the job queue after an outermost RunProgram / Callable (repaired algorithm) ---- *)
-Lemma leave_norm_jq : forall lim faults fixed fuel s s',
-  leave lim faults fixed fuel s = (s', ONorm) -> jq s' = [].
+Lemma leave_norm_jq : forall lim faults fuel s s',
+  leave lim faults fuel s = (s', ONorm) -> jq s' = [].
 Proof.
-  intros lim faults fixed. induction fuel as [|f IH]; intros s s' H. { simpl in H. discriminate. }
+  intros lim faults. induction fuel as [|f IH]; intros s s' H. { simpl in H. discriminate. }
   rewrite leave_S in H. destruct (jq s) eqn:J. { inversion H; subst. exact J. }
-  destruct (run_batch lim (Model.exec lim faults fixed f) (j :: l) (set_jq [] s)) as [s1 o].
+  destruct (run_batch lim (Model.exec lim faults f) (j :: l) (set_jq [] s)) as [s1 o].
   destruct o; try discriminate. eapply IH; eauto.
 Qed.
 
@@ -429,94 +361,92 @@ Proof.
     destruct (Nat.eqb (length (cs (top_fin s))) 0) eqn:E; [reflexivity|]. cbn. intros H. apply Nat.eqb_neq in E. contradiction.
 Qed.
 
-Lemma top_leave_jq : forall lim faults fixed f s2 err,
-  go_outcome (snd (fst (top_leave (Model.leave lim faults fixed f) s2 err))) ->
-  length (cs (fst (fst (top_leave (Model.leave lim faults fixed f) s2 err)))) = 0%nat ->
-  jq (fst (fst (top_leave (Model.leave lim faults fixed f) s2 err))) = [].
+Lemma top_leave_jq : forall lim faults f s2 err,
+  go_outcome (snd (fst (top_leave (Model.leave lim faults f) s2 err))) ->
+  length (cs (fst (fst (top_leave (Model.leave lim faults f) s2 err)))) = 0%nat ->
+  jq (fst (fst (top_leave (Model.leave lim faults f) s2 err))) = [].
 Proof.
-  intros lim faults fixed f s2 err. unfold top_leave.
-  destruct (Model.leave lim faults fixed f (set_sb (-1) (set_prg false (pop_try s2)))) as [s3 o] eqn:E.
+  intros lim faults f s2 err. unfold top_leave.
+  destruct (Model.leave lim faults f (set_sb (-1) (set_prg false (pop_try s2)))) as [s3 o] eqn:E.
   destruct o; cbn [fst snd]; intros G; try (destruct G as [G|(q & G)]; discriminate).
   - intros _. unfold top_fin. cbn. eapply leave_norm_jq; eauto.
   - apply top_recover_jq.
 Qed.
 
-Lemma run_top_jq : forall lim faults fixed fuel body s,
-  go_outcome (snd (fst (Model.run_top lim faults fixed fuel body s))) ->
-  length (cs (fst (fst (Model.run_top lim faults fixed fuel body s)))) = 0%nat ->
-  jq (fst (fst (Model.run_top lim faults fixed fuel body s))) = [].
+Lemma run_top_jq : forall lim faults fuel body s,
+  go_outcome (snd (fst (Model.run_top lim faults fuel body s))) ->
+  length (cs (fst (fst (Model.run_top lim faults fuel body s)))) = 0%nat ->
+  jq (fst (fst (Model.run_top lim faults fuel body s))) = [].
 Proof.
-  intros lim faults fixed fuel body s. destruct fuel as [|f]. { simpl. intros [G|(q & G)]; discriminate. }
-  change (Model.run_top lim faults fixed (S f) body s)
-    with (run_top_step (Model.exec lim faults fixed f) (Model.leave lim faults fixed f) body s).
+  intros lim faults fuel body s. destruct fuel as [|f]. { simpl. intros [G|(q & G)]; discriminate. }
+  change (Model.run_top lim faults (S f) body s)
+    with (run_top_step (Model.exec lim faults f) (Model.leave lim faults f) body s).
   unfold run_top_step.
-  destruct (loop_out (run_items (Model.exec lim faults fixed f) body
+  destruct (loop_out (run_items (Model.exec lim faults f) body
               (push_try true false false (set_prg true (set_cs (halt_ctx :: cs s) s))))) as [s2 o].
   destruct o; try (cbn [fst snd]; intros [G|(q & G)]; discriminate).
   - apply top_leave_jq.
   - destruct (catchable p). apply top_leave_jq. intros _. apply top_recover_jq.
 Qed.
 
-Lemma run_wrapped_jq : forall lim faults fixed f body s,
-  go_outcome (snd (fst (run_wrapped lim (Model.exec lim faults fixed f) (Model.leave lim faults fixed f) body s))) ->
-  length (cs (fst (fst (run_wrapped lim (Model.exec lim faults fixed f) (Model.leave lim faults fixed f) body s)))) = 0%nat ->
-  jq (fst (fst (run_wrapped lim (Model.exec lim faults fixed f) (Model.leave lim faults fixed f) body s))) = [].
+Lemma run_wrapped_jq : forall lim faults f body s,
+  go_outcome (snd (fst (run_wrapped lim (Model.exec lim faults f) (Model.leave lim faults f) body s))) ->
+  length (cs (fst (fst (run_wrapped lim (Model.exec lim faults f) (Model.leave lim faults f) body s)))) = 0%nat ->
+  jq (fst (fst (run_wrapped lim (Model.exec lim faults f) (Model.leave lim faults f) body s))) = [].
 Proof.
-  intros lim faults fixed f body s. unfold run_wrapped.
+  intros lim faults f body s. unfold run_wrapped.
   assert (Hrec : forall s1 p, length (cs (fst (fst (recover_wrapped s1 p)))) = 0%nat ->
                               jq (fst (fst (recover_wrapped s1 p))) = []).
   { intros s1 p. unfold recover_wrapped. destruct (uncatchable_err p); cbn [fst].
     - destruct (Nat.eqb (length (cs s1)) 0) eqn:E; [reflexivity|]. intros H. apply Nat.eqb_neq in E. contradiction.
     - unfold host_panic_exit. destruct (Nat.eqb (length (cs s1)) 0) eqn:E; [reflexivity|]. intros H. apply Nat.eqb_neq in E. contradiction. }
   assert (Htail : forall s1 err,
-            go_outcome (snd (fst (wrapped_tail (Model.leave lim faults fixed f) s1 err))) ->
-            length (cs (fst (fst (wrapped_tail (Model.leave lim faults fixed f) s1 err)))) = 0%nat ->
-            jq (fst (fst (wrapped_tail (Model.leave lim faults fixed f) s1 err))) = []).
+            go_outcome (snd (fst (wrapped_tail (Model.leave lim faults f) s1 err))) ->
+            length (cs (fst (fst (wrapped_tail (Model.leave lim faults f) s1 err)))) = 0%nat ->
+            jq (fst (fst (wrapped_tail (Model.leave lim faults f) s1 err))) = []).
   { intros s1 err. unfold wrapped_tail. destruct (Nat.eqb (length (cs s1)) 0) eqn:E.
-    - destruct (Model.leave lim faults fixed f s1) as [s2 o] eqn:El.
+    - destruct (Model.leave lim faults f s1) as [s2 o] eqn:El.
       destruct o; cbn [fst snd]; intros G; try (destruct G as [G|(q & G)]; discriminate).
       + intros _. eapply leave_norm_jq; eauto.
       + apply Hrec.
     - cbn [fst snd]. intros _ H. apply Nat.eqb_neq in E. contradiction. }
-  destruct (vm_try (reentry lim (Model.exec lim faults fixed f) 0 body) s) as [s1 o].
+  destruct (vm_try (reentry lim (Model.exec lim faults f) 0 body) s) as [s1 o].
   destruct o; try (cbn [fst snd]; intros [G|(q & G)]; discriminate).
   - apply Htail.
   - apply Htail.
   - intros _. apply Hrec.
 Qed.
 
-(* idle, and the job queue empty, after every outermost RunProgram / Callable that ran into no deviation *)
-Theorem idle_restored_jobs : forall lim faults fixed fuel body st,
+(* idle, and the job queue empty, after EVERY outermost RunProgram / Callable *)
+Theorem idle_restored_jobs : forall lim faults fuel body st,
   idle_regs st = true ->
-  (snd (api_exec lim faults fixed fuel (ARun body) st) <> RStuck ->
-   no_new_deviation fixed st (fst (api_exec lim faults fixed fuel (ARun body) st)) ->
-   idle_regs (fst (api_exec lim faults fixed fuel (ARun body) st)) = true /\
-   jq (fst (api_exec lim faults fixed fuel (ARun body) st)) = []) /\
-  (snd (api_exec lim faults fixed fuel (ACall body) st) <> RStuck ->
-   no_new_deviation fixed st (fst (api_exec lim faults fixed fuel (ACall body) st)) ->
-   idle_regs (fst (api_exec lim faults fixed fuel (ACall body) st)) = true /\
-   jq (fst (api_exec lim faults fixed fuel (ACall body) st)) = []).
+  (snd (api_exec lim faults fuel (ARun body) st) <> RStuck ->
+   idle_regs (fst (api_exec lim faults fuel (ARun body) st)) = true /\
+   jq (fst (api_exec lim faults fuel (ARun body) st)) = []) /\
+  (snd (api_exec lim faults fuel (ACall body) st) <> RStuck ->
+   idle_regs (fst (api_exec lim faults fuel (ACall body) st)) = true /\
+   jq (fst (api_exec lim faults fuel (ACall body) st)) = []).
 Proof.
-  intros lim faults fixed fuel body st Hi.
+  intros lim faults fuel body st Hi.
   pose proof (idle_regs_spec st Hi) as (_ & _ & _ & _ & _ & Hcs & _).
-  split; intros Hs Gd.
-  - pose proof (idle_restored_partial lim faults fixed fuel (ARun body) st Hi Hs Gd) as I1. split; [exact I1|].
-    apply idle_regs_spec in I1. destruct I1 as (_ & _ & _ & _ & _ & Hcs' & _). clear Gd.
+  split; intros Hs.
+  - pose proof (idle_restored lim faults fuel (ARun body) st Hi Hs) as I1. split; [exact I1|].
+    apply idle_regs_spec in I1. destruct I1 as (_ & _ & _ & _ & _ & Hcs' & _).
     simpl in *. destruct fuel as [|f]. { simpl in Hs. congruence. }
     rewrite exec_S in *. simpl in *. rewrite Hcs in *. simpl in *.
-    pose proof (run_top_jq lim faults fixed f body st) as J.
-    destruct (Model.run_top lim faults fixed f body st) as [[s1 o] e]. simpl in J.
+    pose proof (run_top_jq lim faults f body st) as J.
+    destruct (Model.run_top lim faults f body st) as [[s1 o] e]. simpl in J.
     destruct o; simpl in *; try congruence.
     + destruct e as [p|]; simpl in *.
       * unfold policy in *. rewrite andb_false_r in *. simpl in *. apply J; [left; reflexivity | rewrite Hcs'; reflexivity].
       * apply J; [left; reflexivity | rewrite Hcs'; reflexivity].
     + apply J. right; eauto. rewrite Hcs'. reflexivity.
-  - pose proof (idle_restored_partial lim faults fixed fuel (ACall body) st Hi Hs Gd) as I1. split; [exact I1|].
-    apply idle_regs_spec in I1. destruct I1 as (_ & _ & _ & _ & _ & Hcs' & _). clear Gd.
+  - pose proof (idle_restored lim faults fuel (ACall body) st Hi Hs) as I1. split; [exact I1|].
+    apply idle_regs_spec in I1. destruct I1 as (_ & _ & _ & _ & _ & Hcs' & _).
     simpl in *. destruct fuel as [|f]. { simpl in Hs. congruence. }
     rewrite exec_S in *. simpl in *.
-    pose proof (run_wrapped_jq lim faults fixed f body st) as J.
-    destruct (run_wrapped lim (Model.exec lim faults fixed f) (Model.leave lim faults fixed f) body st) as [[s1 o] e]. simpl in J.
+    pose proof (run_wrapped_jq lim faults f body st) as J.
+    destruct (run_wrapped lim (Model.exec lim faults f) (Model.leave lim faults f) body st) as [[s1 o] e]. simpl in J.
     destruct o; simpl in *; try congruence.
     + destruct e as [p|]; simpl in *.
       * unfold policy in *. rewrite andb_false_r in *. simpl in *. apply J; [left; reflexivity | rewrite Hcs'; reflexivity].
